@@ -15,6 +15,8 @@
 //   1 pid op obj arg time      REQ  (printed by the actor just before it calls the S4U function)
 //   2 pid op obj result time   RET  (printed when the call returned; result: try_lock/acquire_timeout/wait value)
 //   3 pid obj time n x1..xn    PEEK answer: mutex  -> owner depth q1..qk ; semaphore -> value q1..qk ; barrier -> q1..qk
+//   4 0 0 0 0 time             the engine advanced the clock (Engine::on_time_advance): timers/sleeps ending at that date
+//                              are handled right after it, before any actor runs again
 //   9 status 0 0 0 time        end: status 0 normal, 1 the simulation aborted (xbt_assert), 2 deadlock reported
 // time = clock * 1024 (exact for the dyadic durations used).
 // Every case runs in a forked child (one s4u::Engine per process; an xbt_assert aborts the child only).
@@ -216,6 +218,7 @@ static int run_case(const std::vector<long long>& v)
     ev({9, 2, 0, 0, 0, now()});
     _exit(0);
   });
+  sg4::Engine::on_time_advance_cb([](double) { ev({4, 0, 0, 0, 0, now()}); });
   e.run();
   ev({9, 0, 0, 0, 0, now()});
   return 0;
